@@ -121,49 +121,56 @@ def nthroot(x, n):
     except (ValueError, TypeError):
         return complex(x) ** r
 
+def _reduce_half(x):
+    # x = n/2 + r with |r| <= 1/4 (both exact) and n taken modulo 4
+    if x >= 9007199254740992.0:
+        # an even integer
+        return 0, 0.0
+    n, r = divmod(x, 0.5)
+    if r > 0.25:
+        r -= 0.5
+        n += 1
+    return n % 4, r
+
 def _sinpi_real(x):
     if x < 0:
         return -_sinpi_real(-x)
-    n, r = divmod(x, 0.5)
+    n, r = _reduce_half(x)
     r *= pi
-    n %= 4
     if n == 0: return math.sin(r)
     if n == 1: return math.cos(r)
     if n == 2: return -math.sin(r)
-    if n == 3: return -math.cos(r)
+    return -math.cos(r)
 
 def _cospi_real(x):
     if x < 0:
         x = -x
-    n, r = divmod(x, 0.5)
+    n, r = _reduce_half(x)
     r *= pi
-    n %= 4
     if n == 0: return math.cos(r)
     if n == 1: return -math.sin(r)
     if n == 2: return -math.cos(r)
-    if n == 3: return math.sin(r)
+    return math.sin(r)
 
 def _sinpi_complex(z):
     if z.real < 0:
         return -_sinpi_complex(-z)
-    n, r = divmod(z.real, 0.5)
+    n, r = _reduce_half(z.real)
     z = pi*complex(r, z.imag)
-    n %= 4
     if n == 0: return cmath.sin(z)
     if n == 1: return cmath.cos(z)
     if n == 2: return -cmath.sin(z)
-    if n == 3: return -cmath.cos(z)
+    return -cmath.cos(z)
 
 def _cospi_complex(z):
     if z.real < 0:
         z = -z
-    n, r = divmod(z.real, 0.5)
+    n, r = _reduce_half(z.real)
     z = pi*complex(r, z.imag)
-    n %= 4
     if n == 0: return cmath.cos(z)
     if n == 1: return -cmath.sin(z)
     if n == 2: return -cmath.cos(z)
-    if n == 3: return cmath.sin(z)
+    return cmath.sin(z)
 
 cospi = _mathfun_real(_cospi_real, _cospi_complex)
 sinpi = _mathfun_real(_sinpi_real, _sinpi_complex)
